@@ -94,6 +94,12 @@ fn compile_data_expr(ir: &tir::Expression) -> Result<primitives::PlutusData, Err
     }
 }
 
+/// Converts a quantity into the integer type of its ledger field, failing
+/// instead of wrapping when it doesn't fit.
+fn number_into<T: TryFrom<i128>>(value: i128, target: &str) -> Result<T, Error> {
+    T::try_from(value).map_err(|_| Error::CoerceError(value.to_string(), target.to_string()))
+}
+
 fn compile_native_asset_for_output(
     ir: &tir::AssetExpr,
 ) -> Result<primitives::Multiasset<primitives::PositiveCoin>, Error> {
@@ -101,7 +107,8 @@ fn compile_native_asset_for_output(
     let policy = coercion::bytes_into_hash(policy.as_slice())?;
     let asset_name = coercion::expr_into_bytes(&ir.asset_name)?;
     let amount = coercion::expr_into_number(&ir.amount)?;
-    let amount = primitives::PositiveCoin::try_from(amount as u64).unwrap();
+    let amount = primitives::PositiveCoin::try_from(number_into::<u64>(amount, "asset amount")?)
+        .map_err(|_| Error::CoerceError(amount.to_string(), "positive asset amount".to_string()))?;
 
     let asset = asset!(policy, asset_name.clone(), amount);
 
@@ -117,11 +124,17 @@ fn compile_native_asset_for_mint(
     let asset_name = coercion::expr_into_bytes(&ir.asset_name)?;
     let amount = coercion::expr_into_number(&ir.amount)?;
 
-    let amount = if !is_burn {
-        primitives::NonZeroInt::try_from(amount as i64).unwrap()
-    } else {
-        primitives::NonZeroInt::try_from(-amount as i64).unwrap()
-    };
+    if amount <= 0 {
+        return Err(Error::CoerceError(
+            amount.to_string(),
+            "positive mint / burn amount".to_string(),
+        ));
+    }
+
+    let signed = if !is_burn { amount } else { -amount };
+
+    let amount = primitives::NonZeroInt::try_from(number_into::<i64>(signed, "mint amount")?)
+        .map_err(|_| Error::CoerceError(amount.to_string(), "non-zero mint amount".to_string()))?;
 
     let asset = asset!(policy, asset_name.clone(), amount);
 
@@ -138,7 +151,7 @@ fn compile_value(ir: &tir::AssetExpr) -> Result<primitives::Value, Error> {
     let amount = coercion::expr_into_number(&ir.amount)?;
     if ir.policy.is_none() {
         compile_ada_value(ir)
-    } else if amount as i64 > 0 {
+    } else if amount > 0 {
         let asset = compile_native_asset_for_output(ir)?;
         Ok(value!(0, asset))
     } else {
@@ -387,7 +400,7 @@ pub fn compile_withdrawal_directive(
         .get("amount")
         .ok_or(Error::MissingExpression("withdrawal amount".to_string()))?;
     let amount = coercion::expr_into_number(amount)?;
-    let amount = primitives::Coin::try_from(amount as u64).unwrap();
+    let amount: primitives::Coin = number_into(amount, "withdrawal amount")?;
 
     Ok((credential, amount))
 }
@@ -475,13 +488,15 @@ fn compile_validity(validity: Option<&tir::Validity>) -> Result<(Option<u64>, Op
         .and_then(|v| v.since.as_option())
         .map(coercion::expr_into_number)
         .transpose()?
-        .map(|n| n as u64);
+        .map(|n| number_into::<u64>(n, "slot number"))
+        .transpose()?;
 
     let until = validity
         .and_then(|v| v.until.as_option())
         .map(coercion::expr_into_number)
         .transpose()?
-        .map(|n| n as u64);
+        .map(|n| number_into::<u64>(n, "slot number"))
+        .transpose()?;
 
     Ok((since, until))
 }
@@ -494,7 +509,9 @@ fn compile_donation(tx: &tir::Tx) -> Result<Option<pallas::codec::utils::Positiv
         .map(coercion::expr_into_number)
         .transpose()?
         .map(|amount| {
-            pallas::codec::utils::PositiveCoin::try_from(amount as u64).map_err(|_| {
+            let coin = number_into::<u64>(amount, "donation amount")?;
+
+            pallas::codec::utils::PositiveCoin::try_from(coin).map_err(|_| {
                 Error::CoerceError(
                     format!("Invalid donation amount: {}", amount),
                     "PositiveCoin".to_string(),
@@ -513,7 +530,7 @@ fn compile_tx_body(
     let out = primitives::TransactionBody {
         inputs: compile_inputs(tx)?.into(),
         outputs: compile_outputs(tx, network)?,
-        fee: coercion::expr_into_number(&tx.fees)? as u64,
+        fee: number_into(coercion::expr_into_number(&tx.fees)?, "fee")?,
         certificates: primitives::NonEmptySet::from_vec(compile_certs(tx, network)?),
         mint: compile_mint_block(tx)?,
         reference_inputs: primitives::NonEmptySet::from_vec(compile_reference_inputs(tx)?),
@@ -542,7 +559,7 @@ fn compile_auxiliary_data(tx: &tir::Tx) -> Result<Option<primitives::AuxiliaryDa
         .metadata
         .into_iter()
         .map(|x| {
-            let key = expr_into_number(&x.key)? as u64;
+            let key = number_into::<u64>(expr_into_number(&x.key)?, "metadata label")?;
             let value = expr_into_metadatum(&x.value)?;
             Ok((key, value))
         })
